@@ -424,13 +424,13 @@ Proof. intros H. pose proof (typecheck_decl p q H) as R. destruct (typecheck p),
 Theorem run_decl_src p q p' md pick fuel :
   src_renamed p q -> typecheck p = Accept p' -> RtTheorems.in_fragment p' ->
   SynOk.prog_syn_ok p = true -> SynOk.prog_syn_ok q = true -> RtTcSyn.raw_ok p = true -> RtTcSyn.raw_ok q = true ->
-  DeterminismAll.all_src_b p = true -> DeterminismAll.all_src_b q = true -> is_np md = false ->
+  DeterminismAll.all_src_b p = true -> DeterminismAll.all_src_b q = true ->
   exists q', typecheck q = Accept q' /\
     kind_of (run_program fuel pick md q') = kind_of (run_program fuel pick md p') /\
     labels (final_cfg (run_program fuel pick md q')) = labels (final_cfg (run_program fuel pick md p')) /\
     pids (final_cfg (run_program fuel pick md q')) = pids (final_cfg (run_program fuel pick md p')).
 Proof.
-  intros H Ha Hf PS PS' RS RS' Hall Hall' Hnp. pose proof (typecheck_decl p q H) as R. rewrite Ha in R.
+  intros H Ha Hf PS PS' RS RS' Hall Hall'. pose proof (typecheck_decl p q H) as R. rewrite Ha in R.
   destruct (typecheck q) as [q'| | |] eqn:Ea'; try contradiction. destruct R as [Hd Eas].
   exists q'. split; [reflexivity|].
   apply (run_decl_alpha p q p' q' md pick fuel Ha Ea' Hf); auto. unfold RtTheorems.in_fragment in *. congruence.
